@@ -24,7 +24,7 @@ deriving Repr, DecidableEq
 /-- the read loop of asm_read_file: `pos` bytes so far, `len` = st_size; the answers of the
     successive read calls; when the list is used up the OS delivers everything that is left -/
 def readLoop (content : Str) (len : Nat) : Nat → List ReadAns → Option Nat
-  | pos, [] => some (if pos < len then min len content.length |>.max pos else pos)
+  | pos, [] => some (if pos < len then min len content.length else pos)
   | pos, a :: as =>
     if pos < len then
       match a with
